@@ -14,6 +14,14 @@ CLAIMED = {
    "Differential + reference-checked property testing of the real readers (HttpRequest/HttpResponse::read_from, SocksRequest::read_from incl. the SOCKS5 negotiation, SocksResponse::read_from, the RPFM StreamFrameReader): for generated valid messages from independent encoders, every explored segmentation (byte-at-a-time, a cut inside every field, generated cut sets, all 2^(n-1) cut sets for inputs <= 12 bytes) must give the same parsed message, the same reply bytes and leave exactly the trailing payload unread, and must agree with the encoded fields; every truncation point of 300 (quick) / 6 000 (thorough) messages must give no message. 2 500 / 150 000 generated cases.",
    "Trusted: refcodec encoders (written from the RFCs / the frame comment), tokio's in-memory duplex as the segment carrier (a yield between segments lets the reader observe each boundary).",
    "proptest differential (whole vs segmented) + round-trip against reference encoders + exhaustive cut sets for short inputs", "§3 C12"),
+ "C03": ("vp-inproc", "exploration",
+   "Round-trip / composition testing of the real codecs against independent reference encoders and parsers: a destination from 30 hostile host classes (or an IP) is reference-encoded for an inbound protocol, read by the real reader, handed to the real writer of an outbound protocol (real h11c_connect, SocksRequest::write_to, encode_socks_frame, Frame::make_header / StreamFrameWriter / Fragmentable buffer) and the bytes on the wire are reference-parsed: refusal, or exactly one well-formed message naming the same destination with no residue / extra header. 60 000 (quick) / 600 000 (thorough) cases over all 54 (inbound, outbound) pairs.",
+   "Trusted: refcodec (RFC 1928/1929, SOCKS4/4a memos, RFC 7230 head syntax, the RPFM comment); canon() treats a name that is an IP literal as that address; per RFC 7230 §3.5 no whitespace is generated inside an inbound CONNECT target.",
+   "proptest round-trip through reference encoder -> real reader -> real writer -> reference parser", "§3 C03"),
+ "C05": ("vp-inproc", "exploration",
+   "In-process decoder sweep (part a of the design; the end-to-end liveness part is added to this check when the e2e engine lands): every peer-facing decoder incl. the listener- and connector-side handshakes is fed arbitrary bytes and mutated valid messages under generated segmentations, then EOF; exhaustive (total,seq) header sweep and 0-3 byte datagrams; arbitrary datagram sequences; make_fragments for every MTU 0..65535. Oracle: no panic under dev-profile checks (the shipped profiles abort on panic), termination.",
+   "Trusted: panic capture via catch_unwind in a harness built with panic=unwind over the same sources; dev-profile overflow checks are at least as strict as the release profile.",
+   "proptest mutation fuzzing of valid messages + exhaustive header/MTU enumeration, oracle = no panic / termination", "§3 C05"),
 }
 
 NOT_YET = "check not built yet in this session (see DESIGN.md §6 build order); will be claimed once its generator and oracle exist"
